@@ -29,7 +29,7 @@ SCOPE = [
 ]
 
 OPS = [
-    (r'<=', '<'), (r'>=', '>'), (r'(?<![<>=!-])<(?![<=])', '<='), (r'(?<![<>=!-])>(?![>=])', '>='),
+    (r' <= ', ' < '), (r' >= ', ' > '), (r' < ', ' <= '), (r' > ', ' >= '), (r' < ', ' > '), (r' >= ', ' < '),
     (r'==', '!='), (r'!=', '=='), (r'&&', '||'), (r'\|\|', '&&'),
     (r'\+ 1\b', '+ 2'), (r'- 1\b', '- 2'), (r'\+ 1\b', '- 1'), (r'\b0\b', '1'), (r'\b1\b', '0'), (r'\b100\b', '99'),
     (r'\btrue\b', 'false'), (r'\bfalse\b', 'true'), (r'\.max\(', '.min('), (r'\.min\(', '.max('),
@@ -89,14 +89,15 @@ def main():
     env = dict(os.environ, CARGO_NET_OFFLINE='true')
     done = 0
     tried = 0
-    while done < n and tried < n * 30:
+    while done < n and tried < n * 200:
         tried += 1
         f = rnd.choices(all_files, weights)[0]
         lines, cand = code_lines('/repo/' + f)
         if not cand:
             continue
         i, l = rnd.choice(cand)
-        op = rnd.choice(OPS)
+        fits = [op for op in OPS if op[0] == 'DROP' or re.search(op[0], l)]
+        op = rnd.choice(fits)
         if op[0] == 'DROP':
             st = l.strip()
             if not st.endswith(';') or st.startswith('let ') or st.startswith('return') or '=' in st.split('(')[0] and '==' not in st:
